@@ -64,6 +64,7 @@ fn oracles() -> Vec<(&'static str, Enumerate, Check)> {
         ("c02_walk", o_solver::enum_walk, o_solver::check_walk),
         ("c04_format", o_solver::enum_format, o_solver::check_format),
         ("c04_prog", o_solver::enum_prog_output, o_solver::check_program),
+        ("c04_print_list", o_solver::enum_print_list, o_solver::check_print_list),
         ("c05_prog", o_solver::enum_prog_reask, o_solver::check_program),
         ("c01_prog", o_solver::enum_prog_answers, o_solver::check_program),
         ("c11_rename", o_solver::enum_rename_prog, o_solver::check_rename_prog),
